@@ -90,6 +90,20 @@ BIGINT_FIXED = [([[0, 0, 0], [0, 0, 300]], [[0, 0, 0], [0, 0, 10]]),
                 ([[0, 65536, 65536], [1, 0, 0], [1, 3000000, 3000000]], [[0, 0, 0], [1, 65536, 65536], [2, 40, 40], [3, 2999000, 2999000]])]
 
 
+# whole-number tracks ([k, v, v]: dim = 1 and the Manhattan / Chebyshev callables see the differences of v) handed over as numpy.int64 whose
+# point distances sit at the int64 bounds of B**2 (3037000499) and B**3 (2097151): the finding's witness, the two bounds from below and above
+I64_FIXED = [([[0, 0, 0], [1, 2200000, 2200000]], [[0, 0, 0], [1, 0, 0]]),
+             ([[0, 0, 0], [1, 2097151, 2097151], [2, 5, 5]], [[0, 0, 0], [1, 0, 0], [2, 2097157, 2097157]]),
+             ([[0, 0, 0], [1, 2097151, 2097151]], [[0, 0, 0], [1, 3, 3], [2, 2097151, 2097151]]),
+             ([[0, 0, 0], [1, 3037000499, 3037000499]], [[0, 7, 7], [1, 0, 0]]),
+             ([[0, 0, 0], [1, 3037000500, 3037000500], [2, 9, 9]], [[0, 0, 0], [1, 1, 1]])]
+
+
+I64_SCOPE = ("numpy.int64 coordinates at the int64 bounds of B**p: 5 fixed pairs of whole-number tracks (point distances 2097151, 2097152, 2097157, 2200000, 3037000499, 3037000500) "
+             "x p in {2, 3} x dim in {1, Manhattan, Chebyshev callable} x {DTW, FDTW} x {match, compare}; the calls above the bound (FDTW) only while the finding "
+             "fdtw-numpy-int-coordinates-power-overflow is listed, match() then compared with the int64 model (as are 200 / 800 random pairs of such tracks, sizes 1..5, straddling the bounds)")
+
+
 # ---------------------------------------------------------------------------------- tracks
 def pts(tr):
     """a track is a list of [x, y, z] or a compact lattice string 'g:digits' (digit k = point (k // g, k % g, k % g) of
@@ -304,12 +318,26 @@ class P(Prop):
         ("TracklibVerif.Props.C18", "TV.C18.cost_unit_invariant_real", "every point distance multiplied by c > 0, accumulation A + B**x: same coupling, score multiplied by c**x, for a power function multiplicative at c (the real one; exact arithmetic)"),
         ("TracklibVerif.Props.C18", "TV.C18.session_history_irrelevant_real", "session_history_irrelevant for the sessions the driver runs (runSeqX: p any positive number in any form), whatever B**x computes"),
         ("TracklibVerif.Props.C18", "TV.C18.match_real_history", "matchCallX (any p, modes DTW / FRECHET) on a track1 carrying the feature rows of an earlier matching returns what it returns on the same positions without features"),
+        ("TracklibVerif.Props.C18Fast", "TV.C18.session_history_irrelevant_fdtw", "sessions in EVERY mode, the fast variant (3 / 107) included (runSeqX: any constants, any exponent in any form, any dim): when every FDTW call is one the fast variant is good for (FastCallOK: the accumulation _p2weight returns is monotone and inflationary on the point distances of the two tracks and big above every candidate cost — or just big above the accumulated cost of every partial coupling), every call returns what it returns on copies that never went through match"),
+        ("TracklibVerif.Props.C18Fast", "TV.C18.match_fdtw_history_any", "match(m, track2, FDTW, p, dim) on a track m carrying the feature rows of an earlier matching is match on the same positions without features, for p in ANY form (numpy scalar, callable, exponent not a natural number) — generalises match_fdtw_history"),
+        ("TracklibVerif.Props.C18Fast", "TV.C18.fast_call_ok", "FastCallOK over an ordered field, whatever the form of p: it holds when _distance is non-negative, B**x >= 0 on B >= 0 (only used for an exponent that is not a natural number) and big is above every candidate cost"),
+        ("TracklibVerif.Props.C18Fast", "TV.C18.session_history_irrelevant_all", "session_history_irrelevant_fdtw with the hypotheses of match_fdtw_correct / match_fdtw_real_correct spelt out for the FDTW calls (non-negative distance, B**x >= 0, big above the candidate costs of every pair of tracks of the session)"),
+        ("TracklibVerif.Props.C18Fast", "TV.C18.fdtw_path_any", "T5b for ANY accumulation and ANY point distance (callable p of any shape, negative values of a callable dim, B**p wrapped in int64): when big (1e300) is above the accumulated cost of every partial coupling, _fdtw succeeds, its matching is a monotone unit-step coupling from the first to the last pair whose accumulated cost IS the reported score, pair/nb_links describe it, nobody left out (structural invariant of the best-first search, Lemmas/FDTWStruct.lean; optimality is fdtw_equal)"),
+        ("TracklibVerif.Props.C18Fast", "TV.C18.fast_call_ok_any", "FastCallOK (the hypothesis of session_history_irrelevant_fdtw / match_fdtw_history_any) holds as soon as big is above every partial coupling cost, whatever _p2weight and _distance return: no monotonicity, no sign condition"),
+        ("TracklibVerif.Props.C18Fast", "TV.C18.fast_hyp_check_sound", "the executable monitor the driver runs on every generated single call of the modes DTW / FDTW (C18.hyp, fastHypCheck in Float with B**x = Float.pow: every point distance >= 0, weight(0, B) >= 0, every candidate cost weight(T[i,j], D[i',j']) < 1e300) is sound: when it accepts, the hypotheses of fdtw_equal / match_fdtw_correct / match_fdtw_real_correct / session_history_irrelevant_fdtw hold, for every accumulation _p2weight can return"),
+        ("TracklibVerif.Props.C18Int64", "TV.C18.int64_power", "B**k on numpy.int64 (k wrapped multiplications, any order) is the exact power reduced modulo 2^64 into [-2^63, 2^63), and the exact power when 0 <= B and B^k < 2^63"),
+        ("TracklibVerif.Props.C18Int64", "TV.C18.int64_power_bounds", "B**2 fits int64 for 0 <= B <= 3037000499, B**3 for 0 <= B <= 2097151; 3037000500**2 and 2097152**3 already wrap to negative numbers"),
+        ("TracklibVerif.Props.C18Int64", "TV.C18.match_fdtw_int64_exact", "match(track1, track2, FDTW, p = k >= 1, dim) on numpy.int64 coordinates (matchFdtw64: B**k in int64) returns exactly what it returns on float / Python-int coordinates when every point distance B between the two tracks is a non-negative integer with B^k < 2^63"),
+        ("TracklibVerif.Props.C18Int64", "TV.C18.match_fdtw_int64_correct", "under that bound (and the hypotheses of match_fdtw_correct) the int64 run succeeds, reports the score of mode DTW = the least sum of d^k over all couplings, and its S is a coupling realising it"),
+        ("TracklibVerif.Props.C18Int64", "TV.C18.match_fdtw_int64_any", "above the bound the int64 run still succeeds and returns a coupling linking everyone whose accumulated cost — the sum of the WRAPPED B**k along it — is the reported score (big above the wrapped partial costs): what is lost is optimality with respect to the true powers"),
+        ("TracklibVerif.Props.C18Int64", "TV.C18.fdtw_int64_witness", "the witness of the finding fdtw-numpy-int-coordinates-power-overflow PROVED in the model: heights 0, 2200000 against 0, 0, p = 3, dim = 1: the int64 run returns -15597488147419103232 with the coupling [[0],[0,1]] (2200000**3 wraps to -7798744073709551616), the run on float coordinates 10648000000000000000 with [[0],[1]]"),
     ]
     partial = []
     open_statements = ["IEEE rounding: the theorems are over a linear order / ordered field; on the float runs the oracle compares with relative tolerance 1e-9 (no absolute tolerance: the check is the same in every unit of the coordinates)",
-                       "session_history_irrelevant / session_history_irrelevant_real exclude the FDTW modes (3 / 107): their coupling is valid only under the hypotheses of match_fdtw_correct; match_fdtw_history is the single-call statement",
+                       "sessions that include the FDTW modes (3 / 107) are covered by session_history_irrelevant_fdtw / session_history_irrelevant_all when every FDTW call is one the fast variant is good for (FastCallOK: the hypotheses of match_fdtw_correct, or merely 1e300 above the accumulated cost of every partial coupling — fdtw_path_any, any accumulation); when accumulated costs reach 1e300 (a first candidate cost not below the placeholder priority is never recorded: KeyError in the backward walk) nothing is claimed of FDTW, histories included",
+                       "numpy.int64 coordinates (finding fdtw-numpy-int-coordinates-power-overflow): Model/DTWInt64.lean models B**p in int64 for match() in the mode FDTW with dim = 1 or a callable returning numpy.int64; match_fdtw_int64_exact gives the bound on the point distances under which it is exact; above it the driver's int64 run (C18.match64) is compared with the real code (correspondence only: the property is violated there). Not modelled: compare() on such inputs ((negative score / nb_links)**(1/p) = nan), the non-symmetric callable fn.lead (int64 or float distance depending on the pair), int64 overflow of the coordinate differences themselves (|z1 - z2| >= 2^63), the rounding of the wrapped integers to float64 in the cost table (theorems over an ordered field)",
                        "the swap clause on GeoCoords tracks with dim = 2 is false for fixes of different heights (finding geo-2d-distance-asymmetric): match_onesided is what holds there",
-                       "exponents that are not natural numbers (p = 0.5, 1.5, ...): B**x is a parameter of the model (Float.pow in the driver); match_real_correct holds for any such function, match_fdtw_real_correct needs B**x >= 0 on B >= 0; unit_invariant (coordinates multiplied by c) is stated for natural exponents and infinity only (cost_unit_invariant_real is the statement on the point distances for the other exponents)",
+                       "exponents that are not natural numbers (p = 0.5, 1.5, ...): B**x is a parameter of the model (Float.pow in the driver); match_real_correct holds for any such function, match_fdtw_real_correct needs B**x >= 0 on B >= 0 — checked of Float.pow on the distances of every generated single call by the monitor C18.hyp (fast_hyp_check_sound), together with 'every candidate cost below 1e300'; unit_invariant (coordinates multiplied by c) is stated for natural exponents and infinity only (cost_unit_invariant_real is the statement on the point distances for the other exponents)",
                        "an exponent p given as a numpy scalar is judged as the Python number of the same value (1f009f6); the model carries the value of p exactly, so a numpy.float16 / float32 p whose value is not the decimal the caller wrote (float16(0.1)) is the number it holds; compare() for a finite p, (score/nb_links)**(1/p), is compared with the model only (not part of the statement)",
                        "a negative or NaN exponent, a dim other than 1, 2, 3 or a callable (`_distance` returns None), tracks whose positions are of two different classes, and STANDARD_PROJ = 2 are neither modelled nor generated"]
     modelled = ("algo/comparison.py: match and compare as called — dispatch on the integer mode constants (2/3/4, 106/107/108; UnknownModeError otherwise), "
@@ -323,7 +351,9 @@ class P(Prop):
                 "_dtw (distance matrix, first row/column, forward step, predecessor encoding, backward walk), _fdtw + _update_node "
                 "(priority_dict.pop_smallest as 'least (priority, key)'), _fillAF_dtw on output = track1.copy() carrying the feature rows of an earlier "
                 "matching (createAnalyticalFeature no-op, reset of every pair list, then diff/pair/ex/ey/nb_links/score), _dtw_comparison / _fdtw_comparison "
-                "((score/nb_links)**(1/p), the TypeError of the fast variant on a callable p); sessions of calls on shared objects (runSeq)")
+                "((score/nb_links)**(1/p), the TypeError of the fast variant on a callable p); sessions of calls on shared objects (runSeq); "
+                "Model/DTWInt64.lean: _fdtw on ENUCoords tracks whose coordinates are numpy.int64 — the point distance handed to `lambda A, B: A + B**p` is a numpy.int64 "
+                "and B**p is evaluated in int64 (wrap64 / ipow64: products reduced modulo 2^64), added to the float cell A (matchFdtw64; run by the driver as C18.match64)")
     rule = ("exhaustive: all ordered pairs of small tracks on the lattices {0,1}^2 (dim 2), {0,1,2} (dim 1) and {0,1,2}^2 (dim 2) "
             "(sizes per tier in exhaustive_scopes), each with p = 1, 2, inf, the swapped call and the FDTW score; random: sizes 1..8 (10% up to 12), "
             "integer / half-integer lattices, axis-aligned integer tracks (exact ties in every dim), general floats, projected survey coordinates (offsets 6e5 / 5e6, points up to 2 km apart) and (sessions) tracks 1e4..1e7 apart; "
@@ -339,7 +369,7 @@ class P(Prop):
             "every form of p on fixed pairs; whole-number tracks of every size up to 3e6 handed over as Python ints (style bigint, and three fixed pairs x every numpy integer type of p x p = 1, 2, 3 x DTW / FDTW x match / compare x dim 1 / Manhattan callable): "
             "integer point distances whose p-th power exceeds the range of the type of p; exponents that are not natural numbers (0.5, 1.5, 2.5, 0.75, 3.25 as Python float, numpy.float16 / float32 / float64 / longdouble or a lambda; 15% of the random calls, "
             "exhaustively on the 1-D lattice {0,1,2} and with a Manhattan callable on {0,1}^2) and whole-number coordinates handed over as Python ints (30% of the lattice / axis-aligned "
-            "single calls, the exhaustive non-integer-exponent scopes, sessions): point distances that are Python ints for dim = 1 and the integer callables. The oracle recomputes the optimum for the requested p on the positions of the objects involved and validates "
+            "single calls, the exhaustive non-integer-exponent scopes, sessions): point distances that are Python ints for dim = 1 and the integer callables. numpy.int64 coordinates at the int64 bounds of B**p (5 fixed pairs with point distances 2097151 / 2097152 / 2097157 / 2200000 / 3037000499 / 3037000500 x p = 2, 3 x dim 1 / Manhattan / Chebyshev x DTW / FDTW x match / compare): below the bound judged like any call, above it (class fdtw-numpy-int-coordinates-power-overflow, generated while listed) the match() result is compared with the int64 model. The oracle recomputes the optimum for the requested p on the positions of the objects involved and validates "
             "every returned matching (for p = 0, where 0**0 is a convention, only the matching). "
             "non-trivial = both tracks have at least 2 observations (a three-way minimum and a back-pointer choice exist); "
             "the input histogram counts the cases where two least predecessors tie")
@@ -348,6 +378,7 @@ class P(Prop):
                "str(type(p)) is computed by the harness on the object it hands to tracklib and passed to the model (blanks removed); the substring tests are the model's; isinstance(p, numpy.floating) / isinstance(p, numpy.integer) of _exponent are modelled by membership of that name in the list of the names numpy prints for its floating / integer scalar types (float16/32/64, longdouble, float128/96; int8..64, uint8..64, longlong, ulonglong, intc, uintc, long, ulong)",
                "the function form of dim is modelled by the function the callable computes (three callables, written once in Python and once in the driver); `'function' in str(type(dim))` is not re-tested by the model",
                "on GeoCoords tracks the oracle takes the point distances from the position objects (GeoCoords.distance2DTo / distanceTo called directly, not through _distance): the geodesy is C14's business, the optimum over couplings is recomputed independently",
+               "int64 arithmetic of numpy scalars (`numpy.int64 ** int`: no exception, the result modulo 2^64) is modelled by wrap64 / ipow64; the driver reads the integer a float distance holds with Float.toInt64 and converts the wrapped power with Float.ofInt (round to nearest, as numpy's int64 -> float64)",
                "Lean Float.sin / cos / atan2 / pow / sqrt and Python's math functions are the same libm (the driver's GeoCoords distances agree with tracklib's within the 1e-9 relative tolerance on every generated input, fixes 1e-9 degree apart included)"]
 
     def setup(self):
@@ -380,7 +411,8 @@ class P(Prop):
                     "function form of dim (3 callables: Manhattan, Chebyshev, a non-symmetric one), mode DTW, p in {1,2,inf}: all ordered pairs of tracks of sizes 1..3 on the lattice {0,1}^2",
                     "positions of class GeoCoords (4 fixed pairs) and ECEFCoords (2 fixed pairs) x dim in {1, 2, 3, 3 callables} x {DTW, FDTW, FRECHET} x {match with p in {1,2,inf}, compare with p = 2}",
                     "exponents that are not natural numbers on integer point distances (coordinates handed over as Python ints), mode DTW with the FDTW and the swapped score: p in {0.5, 1.5}, all ordered pairs of tracks of sizes 1..3 on the 1-D lattice {0,1,2}, dim 1; p = 2.5, sizes 1..4; p = 1.5, Manhattan callable, sizes 1..2 on {0,1}^2; p = 0.5, Chebyshev callable, sizes 1..3 on {0,1}^2",
-                    "p in {0.5, 1.5, 2.5} as Python float / numpy.float16 / float32 / float64 / longdouble / lambda x {DTW, FDTW} x {match, compare} on the 6 fixed pairs, the lattice ones also with int coordinates"]
+                    "p in {0.5, 1.5, 2.5} as Python float / numpy.float16 / float32 / float64 / longdouble / lambda x {DTW, FDTW} x {match, compare} on the 6 fixed pairs, the lattice ones also with int coordinates",
+                    I64_SCOPE]
         return ["mode DTW (with the FDTW score and the swapped score), p in {1,2,inf}: all ordered pairs of tracks of sizes 1..3 on the lattice {0,1}^2, dim 2 (84^2 pairs)",
                 "same, all ordered pairs of tracks of sizes 1..3 on the 1-D lattice {0,1,2}, dim 1 (39^2 pairs)",
                 "same, all ordered pairs of tracks of sizes 1..2 on the lattice {0,1,2}^2, dim 2 (90^2 pairs)",
@@ -391,7 +423,8 @@ class P(Prop):
                 "function form of dim (3 callables: Manhattan, Chebyshev, a non-symmetric one), mode DTW, p in {1,2,inf}: all ordered pairs of tracks of sizes 1..2 on the lattice {0,1}^2",
                 "positions of class GeoCoords (4 fixed pairs) and ECEFCoords (2 fixed pairs) x dim in {1, 2, 3, 3 callables} x {DTW, FDTW, FRECHET} x {match with p in {1,2,inf}, compare with p = 2}",
                 "exponents that are not natural numbers on integer point distances (coordinates handed over as Python ints), mode DTW with the FDTW and the swapped score: p in {0.5, 1.5}, all ordered pairs of tracks of sizes 1..3 on the 1-D lattice {0,1,2}, dim 1; p = 1.5, Manhattan callable, sizes 1..2 on {0,1}^2",
-                "p in {0.5, 1.5, 2.5} as Python float / numpy.float16 / float32 / float64 / longdouble / lambda x {DTW, FDTW} x {match, compare} on the 6 fixed pairs, the lattice ones also with int coordinates"]
+                "p in {0.5, 1.5, 2.5} as Python float / numpy.float16 / float32 / float64 / longdouble / lambda x {DTW, FDTW} x {match, compare} on the 6 fixed pairs, the lattice ones also with int coordinates",
+                I64_SCOPE]
 
     @staticmethod
     def sym_canon(t, g=3):
@@ -523,6 +556,32 @@ class P(Prop):
                             for dim, df in ((1, "int"), ("fn.manh", "fn")):
                                 out.append({"kind": "seq", "ct": "int", "tracks": [a, b], "pre": ["none", "none"],
                                             "steps": [self.step(f, "t0", "t1", mode, p, pf, dim, df=df)]})
+        # (S2c) numpy.int64 coordinates with point distances at the int64 bound of B**p (B <= 3037000499 for p = 2, B <= 2097151 for p = 3:
+        # TV.C18.int64_power_bounds): below it FDTW is exact (match_fdtw_int64_exact), above it the call belongs to the listed class
+        # fdtw-numpy-int-coordinates-power-overflow (generated only while it is listed) and is compared with the int64 model
+        for (a, b) in I64_FIXED:
+            for p in ("2", "3"):
+                for dim, df in ((1, "int"), ("fn.manh", "fn"), ("fn.cheb", "fn")):
+                    for mode in ("dtw", "fdtw"):
+                        for f in ("m", "c"):
+                            case = {"kind": "seq", "ct": "np.int64", "tracks": [a, b], "pre": ["none", "none"],
+                                    "steps": [self.step(f, "t0", "t1", mode, p, "int", dim, df=df)]}
+                            if CLS_NPCOORD in self.listed or not self.npoverflow(case, case["steps"][0]):
+                                out.append(case)
+        # (S2d) random whole-number tracks handed over as numpy.int64 whose point distances straddle the int64 bound of B**p, FDTW match():
+        # most of them belong to the listed class and are compared with the int64 model (generated only while the class is listed)
+        if CLS_NPCOORD in self.listed:
+            for k in range(800 if th else 200):
+                p, top = rng.choice([("3", 2097152), ("3", 2097152), ("3", 4000000), ("2", 3037000500), ("2", 6000000000)])
+
+                def height():
+                    r = rng.random()
+                    return rng.randint(0, 3) if r < 0.4 else (top - rng.randint(0, 4) if r < 0.7 else rng.randint(0, top + 5))
+                tr = [[[i, v, v] for i, v in enumerate(height() for _ in range(rng.randint(1, 5)))] for _ in range(2)]
+                dim, df = rng.choice([(1, "int"), (1, "np"), ("fn.manh", "fn"), ("fn.cheb", "fn")])
+                pre = [rng.choice(["none", "none", "none", "lists"]), "none"]
+                out.append({"kind": "seq", "ct": "np.int64", "tracks": tr, "pre": pre,
+                            "steps": [self.step("m", "t0", "t1", "fdtw", p, rng.choice(["int", "int", "np.int64", "np.int32", "fn"]), dim, df=df)]})
         # (S3) random sessions
         for k in range(30000 if th else 4000):
             out.append(self.rand_session(rng))
@@ -868,8 +927,30 @@ class P(Prop):
             ty = str(type(self.mkp(st["p"], st["pf"]))).replace(" ", "")
             val, fnw = (("-", ptok(st["p"])) if st["pf"] in ("fn", "max") else (ptok(st["p"]), "-"))
             toks.append(":".join([st["f"], str(mode), ty, val, fnw, str(st["dim"]), str(self.idx(case, st["a"])), str(self.idx(case, st["b"]))]))
-        return ["C18.seq %s %s %s %s" % (case.get("cls", "enu"), "|".join(self.tok(t) for t in case["tracks"]),
-                                      ",".join("0" if q == "none" else "1" for q in case["pre"]), ";".join(toks))]
+        out = ["C18.seq %s %s %s %s" % (case.get("cls", "enu"), "|".join(self.tok(t) for t in case["tracks"]),
+                                       ",".join("0" if q == "none" else "1" for q in case["pre"]), ";".join(toks))]
+        # calls of the listed class fdtw-numpy-int-coordinates-power-overflow are run by the int64 model too (Model/DTWInt64.lean)
+        for k in self.int64_steps(case):
+            st = case["steps"][k]
+            out.append("C18.match64 %s %s %s %s" % (st["p"], st["dim"], self.tok(self.geo(case, st["a"])), self.tok(self.geo(case, st["b"]))))
+        # every other call in a FDTW mode: the monitor of the hypotheses of session_history_irrelevant_fdtw (TV.C18.fast_hyp_check_sound)
+        for k in self.hyp_steps(case):
+            st = case["steps"][k]
+            out.append("C18.hyp %s %s %s %s %s" % (case.get("cls", "enu"), ptok(st["p"]), st["dim"], self.tok(self.geo(case, st["a"])), self.tok(self.geo(case, st["b"]))))
+        return out
+
+    def hyp_steps(self, case):
+        """the calls of a session in a FDTW mode on non-empty tracks with a defined point distance, outside the listed int64 class"""
+        return [k for k, st in enumerate(case["steps"])
+                if st["mode"] == "fdtw" and defined(case.get("cls", "enu"), st["dim"]) and self.geo(case, st["a"]) and self.geo(case, st["b"])
+                and not self.npoverflow(case, st)]
+
+    def int64_steps(self, case):
+        """the calls of a session that the int64 model (`C18.match64`: `B**p` evaluated in int64) predicts: match() in the mode FDTW on
+        numpy.int64 coordinates with an integer exponent and a dim whose point distance is a numpy.int64 for every pair of fixes
+        (1, Manhattan, Chebyshev), where some `B**p` leaves int64 (`npoverflow`)"""
+        return [k for k, st in enumerate(case["steps"])
+                if st["f"] == "m" and st["dim"] in (1, "fn.manh", "fn.cheb") and self.npoverflow(case, st)]
 
     def dec_seq(self, case, replies):
         if replies[0] == "bad-request":
@@ -882,6 +963,11 @@ class P(Prop):
                 res.append(self.parse_out(r))
             else:
                 res.append({"value": bitsf(r)})
+        n64 = self.int64_steps(case)
+        for k, r in zip(n64, replies[1:]):
+            res[k] = dict(res[k], i64={"err": r} if r.startswith("err:") or r in ("bad-request", "unmodelled") else self.parse_out(r))
+        for k, r in zip(self.hyp_steps(case), replies[1 + len(n64):]):
+            res[k] = dict(res[k], hyp=r)
         return {"steps": res}
 
     def exact_tracks(self, t1, t2, dim, cls="enu"):
@@ -900,12 +986,24 @@ class P(Prop):
         tainted = set()      # results of calls of the listed class (and of calls made on such results): not compared
         for k, st in enumerate(case["steps"]):
             io, mo = impl_out["steps"][k], model_out["steps"][k]
+            if mo.get("hyp", "1") != "1":
+                return "call %d: the hypotheses of session_history_irrelevant_fdtw (FastCallOK) do not hold on this input: C18.hyp = %s" % (k, mo["hyp"])
+            mo = {kk: v for kk, v in mo.items() if kk != "hyp"}
             if st["a"] in tainted or st["b"] in tainted:
                 tainted.add("r%d" % k)
                 continue
             if self.npoverflow(case, st):
                 tainted.add("r%d" % k)
-                continue     # d**p is computed in int64 there and wraps around (listed finding); the model works in float64
+                # d**p is computed in int64 there and wraps around (listed finding); the model of the session works in float64.
+                # What the real code returns is what the int64 model (Model/DTWInt64.lean, `matchFdtw64`) returns:
+                if "i64" in mo:
+                    m64 = mo["i64"]
+                    if "err" in io or "err" in m64:
+                        if io.get("err") != m64.get("err"):
+                            return "call %d (int64 model): impl=%s model=%s" % (k, str(io)[:200], str(m64)[:200])
+                    elif not rclose(io, m64, TOL):
+                        return "call %d (int64 model): impl=%s model=%s" % (k, io, m64)
+                continue
             if "err" in io or "err" in mo:
                 if io.get("err") != mo.get("err"):
                     return "call %d: impl=%s model=%s" % (k, str(io)[:200], str(mo)[:200])
@@ -1030,6 +1128,9 @@ class P(Prop):
                 out.append("C18.match %s fdtw %s %s %s %s" % (cls, ptok(p), dim, a, b))
             if mode == "frechet":
                 out.append("C18.compare %s frechet inf %s %s %s" % (cls, dim, a, b))
+        if mode in ("dtw", "fdtw"):
+            # the monitor of the hypotheses under which the fast variant is proved correct (TV.C18.fast_hyp_check_sound), one per p
+            out += ["C18.hyp %s %s %s %s %s" % (cls, ptok(p), dim, a, b) for p in case["ps"]]
         return out
 
     @staticmethod
@@ -1057,6 +1158,9 @@ class P(Prop):
             if case["mode"] == "frechet":
                 o["compare"] = bitsf(replies[k]); k += 1
             res[p] = o
+        if case["mode"] in ("dtw", "fdtw"):
+            for p in case["ps"]:
+                res[p]["hyp"] = replies[k]; k += 1
         return res
 
     def compare(self, case, impl_out, model_out):
@@ -1070,7 +1174,10 @@ class P(Prop):
             return None if rclose(impl_out, model_out, TOL) else "impl=%s model=%s" % (impl_out, model_out)
         t1, t2 = pts(case["a"]), pts(case["b"])
         for p in case["ps"]:
-            io, mo = impl_out[p], model_out[p]
+            io, mo = impl_out[p], {k: v for k, v in model_out[p].items() if k != "hyp"}
+            if model_out[p].get("hyp", "1") != "1":
+                # (a finding about the generators, not about tracklib: the theorems on the fast variant say nothing of this input)
+                return "p=%s: the hypotheses of match_fdtw_correct / match_fdtw_real_correct (non-negative distances and powers, candidate costs below 1e300) do not hold on this input: C18.hyp = %s" % (p, model_out[p]["hyp"])
             if io["pairs"] != mo["pairs"]:
                 # a different coupling is acceptable only when it is a valid optimal one too (a tie, resolved
                 # differently because of the last bit of a float): validated by the property's oracle
